@@ -162,8 +162,14 @@ def r4_one_pipeline(ctx: Ctx) -> None:
     ok = len(rd) == 1 and unparse(rd[0].args[0]) == awe.params()[1] and unparse(kwarg(rd[0], "encoding")) == "'utf-8'"
     ctx.check(ok, "assemble_with_emitter:reads-source", "reads the source file as UTF-8 text")
     call = [c for c in calls_in(awe.node) if call_name(c) == "self.assemble_string_with_emitter"]
-    ok = len(call) == 1 and [unparse(x) for x in call[0].args] == ["input_program", awe.params()[1], awe.params()[2]] and \
-        any(isinstance(n, ast.Assign) and unparse(n.targets[0]) == "input_program" and unparse(n.value) == "f.read()" for n in walk_no_nested(awe.node))
+    from ..match import canon as _canon12
+
+    fvar = None
+    for w in [n for n in walk_no_nested(awe.node) if isinstance(n, ast.With)]:
+        for it in w.items:
+            if it.context_expr is (rd[0] if rd else None) and it.optional_vars is not None:
+                fvar = unparse(it.optional_vars)
+    ok = len(call) == 1 and fvar is not None and [_canon12(awe.node, x) for x in call[0].args] == [f"{fvar}.read()", awe.params()[1], awe.params()[2]]
     ctx.check(ok, "assemble_with_emitter:pipeline", "the whole file text goes through the in-memory entry point with the same writer")
     sw = repo.func("a816.writers", "SFCWriter.write_block")
     body = [unparse(s) for s in sw.node.body]
